@@ -8,9 +8,9 @@
  "replace_calls": {"parameter": "stub_parameter"},
  "link_repo": ["type.c"],
  "variants": {"pf_S": ["-DV_P0=1", "-DV_PAREN=0", "-DV_P1=0", "-DV_Q1=0", "-DV_N1=0", "-DV_N2=1"], "f_SS": ["-DV_P0=0", "-DV_PAREN=0", "-DV_P1=0", "-DV_Q1=0", "-DV_N1=0", "-DV_N2=2"], "LpfSR_S": ["-DV_P0=0", "-DV_PAREN=1", "-DV_P1=1", "-DV_Q1=0", "-DV_N1=1", "-DV_N2=1"]}, "canary_variant": "LpfSR_S",
- "unwind": 7,
+ "unwind": 3, "unwindset": ["declarator.0:6", "declaratortypes.4:5", "harness.0:4", "harness.4:6", "harness.5:4", "harness.6:7"],
  "kind": "bounded",
- "bound": "3 declarator shapes (*f S, f S S, (*f S) S), array lengths 0..1000",
+ "bound": "3 declarator shapes (*f S, f S S, (*f S) S), array lengths 0 or 3/5/7",
  "timeout": 120, "replay": false,
  "assumes": ["next()/consume()/expect()/peek() are a token-script stand-in (PP units); attr()/gnuattr() see no attribute (ATTR units)",
              "parameter() (DECL.parameter) is replaced by a stub that consumes the one script token of `( P )` and yields an unnamed int parameter; assignexpr() (expr.c) by a stub that consumes the length token and yields a constant expression of type int; eval() is the identity on it (EVAL units); mkscope/delscope/scopeputdecl (SCOPE.chain) are recorders; util.c listinsert re-stated (util.c defines fatal()); type.c is the real file",
